@@ -43,6 +43,12 @@ def translate(chk):
         st["ins"] = "translated: " + out["ins"]
     if out["signals"]:
         st["signals"] = "safe_exit registered for " + ", ".join(out["signals"])
+    try:
+        ar = c13_handler.around_iteration()
+        st["around_iteration"] = "; ".join(f"{k}: " + ("no tracked field written" if not v else "writes " + " | ".join(v))
+                                           for k, v in ar.items())
+    except Declined as e:
+        st["around_iteration"] = f"declined: {e}"
     chk.translator = st
     return out
 
@@ -259,9 +265,11 @@ def failure_key(o, d):
     """semantic identity of an unsafe signal: the known windows are recognised from the checkpoint itself"""
     stack = o["inject"].get("stack") or []
     c = o.get("checkpoint") or {}
+    if o.get("exit") != EXIT_CODE:
+        return "C13:standard:exit-code"
     if "finalise" in stack or (c and not c.get("finalised") and c.get("live") is None):
         return KEY_FIN
-    if d is not None and d[0] and not d[3] and "consume_sample" in stack:
+    if d is not None and (d[0] or d[1]) and not d[3] and "consume_sample" in stack:
         return KEY_D2
     t = o["task"]
     sig = "".join("1" if x else "0" for x in d) if d is not None else "nockpt"
@@ -334,6 +342,9 @@ def run(chk):
                           f"{t['func']}: " + "; ".join(bad), {"task": t, "failure_key": key})
         if d is None:
             continue
+        ck = o.get("checkpoint") or {}
+        if ck.get("finalised") or "finalise" in (inj.get("stack") or []):
+            continue   # after / inside finalise the six-field summary of ONE replacement does not apply
         ocases.append(cT(cT(*map(cB, d)), cB(safe)))
         if lm and t["phase"] != "around":
             k = None
@@ -420,7 +431,14 @@ def replay(data):
         return 0
     bad = verdict_ins(o) if t["sampler"] == "ins" else verdict_standard(o)
     d = None if t["sampler"] == "ins" else observed_delta(o)
+    key = None
+    if bad:
+        key = ("C13:ins:" + ("checkpoint-modified" if "modified" in bad[0] else "exit-code" if "exited" in bad[0] else "resume-failed")
+               if t["sampler"] == "ins" else failure_key(o, d))
+    known = [k["key"] for k in common.load_known() if k.get("property") == PID and k.get("status", "open") == "open"]
     print(json.dumps({"task": t, "exit": o.get("exit"), "delta(st,de,it,ai,live changed,new present)": d,
+                      "observed_key": key, "observed_key_is_a_known_finding": key in known,
+                      "recorded_key": data.get("key"),
                       "final": {k: v for k, v in (o.get("final") or {}).items() if k not in ("ids", "tb")},
                       "failures": bad}, indent=1))
     if bad:
